@@ -2,6 +2,8 @@ package main
 
 import (
 	"fmt"
+	"go/ast"
+	"path/filepath"
 	"go/token"
 	"go/types"
 	"strings"
@@ -1923,6 +1925,106 @@ func stripStringConv(v ssa.Value) ssa.Value {
 			v = t.X
 		default:
 			return v
+		}
+	}
+}
+
+// ---- R76: whatever enumerates column data types enumerates all five ----
+
+func init() {
+	register(&Rule{ID: "R76", Name: "DATATYPES-EXHAUSTIVE", Floor: 1,
+		Text: "every composite literal (slice, array, map keys) and every expression switch without a default clause that names three or more of the five column data types (types.Int, types.Float, types.Bool, types.Enum, types.String) names all five: a partition of the columns by type that forgets one type silently drops those columns (a Distinct key without its bool columns)",
+		Run:  runR76})
+}
+
+func runR76(c *Ctx) {
+	p := c.P
+	all := []string{"Bool", "Enum", "Float", "Int", "String"}
+	dtConst := func(info *types.Info, e ast.Expr) string {
+		var id *ast.Ident
+		switch t := e.(type) {
+		case *ast.SelectorExpr:
+			id = t.Sel
+		case *ast.Ident:
+			id = t
+		default:
+			return ""
+		}
+		obj, ok := info.Uses[id].(*types.Const)
+		if !ok || obj.Pkg() == nil || obj.Pkg().Path() != rel("types") {
+			return ""
+		}
+		for _, a := range all {
+			if obj.Name() == a {
+				return a
+			}
+		}
+		return ""
+	}
+	report := func(kind string, pos token.Pos, seen map[string]bool) {
+		if len(seen) < 3 {
+			return
+		}
+		position := p.Fset.Position(pos)
+		file := position.Filename
+		if r, err := filepath.Rel(p.Dir, file); err == nil {
+			file = r
+		}
+		key := fmt.Sprintf("%s|%s of data types", file, kind)
+		var missing []string
+		for _, a := range all {
+			if !seen[a] {
+				missing = append(missing, "types."+a)
+			}
+		}
+		at := fmt.Sprintf("%s:%d", file, position.Line)
+		if len(missing) == 0 {
+			c.ok(key, at, "names all five column data types")
+		} else {
+			c.bad(key, at, fmt.Sprintf("names %d of the five column data types but not %s: columns of that type fall through", len(seen), strings.Join(missing, ", ")))
+		}
+	}
+	for _, pk := range p.Pkgs {
+		for _, f := range pk.Syntax {
+			ast.Inspect(f, func(n ast.Node) bool {
+				switch t := n.(type) {
+				case *ast.CompositeLit:
+					seen := map[string]bool{}
+					for _, el := range t.Elts {
+						if kv, ok := el.(*ast.KeyValueExpr); ok {
+							if s := dtConst(pk.TypesInfo, kv.Key); s != "" {
+								seen[s] = true
+							}
+							continue
+						}
+						if s := dtConst(pk.TypesInfo, el); s != "" {
+							seen[s] = true
+						}
+					}
+					report("literal", t.Pos(), seen)
+				case *ast.SwitchStmt:
+					seen := map[string]bool{}
+					hasDefault := false
+					for _, st := range t.Body.List {
+						cc, ok := st.(*ast.CaseClause)
+						if !ok {
+							continue
+						}
+						if cc.List == nil {
+							hasDefault = true
+						}
+						for _, e := range cc.List {
+							if s := dtConst(pk.TypesInfo, e); s != "" {
+								seen[s] = true
+							}
+						}
+					}
+					if !hasDefault {
+						report("switch", t.Pos(), seen)
+					}
+				}
+				return true
+			})
 		}
 	}
 }
